@@ -430,7 +430,7 @@ class Differ:
                     next_path, lele, rele,
                     lhs_parent=lhs, lhs_iteration=idx,
                     rhs_parent=rhs, rhs_iteration=idx,
-                    parentref=idx)
+                    parentref=idx - 1)
             else:
                 diff_action = (DiffActions.SAME
                                if Differ._same_data(lele, rele)
@@ -440,7 +440,7 @@ class Differ:
                         diff_action, next_path, lele, rele,
                         lhs_parent=lhs, lhs_iteration=idx,
                         rhs_parent=rhs, rhs_iteration=idx,
-                        parentref=idx))
+                        parentref=idx - 1))
 
     def _diff_arrays_of_hashes(
         self, path: YAMLPath, lhs: CommentedSeq, rhs: CommentedSeq,
